@@ -105,8 +105,12 @@ def simple_family(draw, max_calls=3, with_metrics=None):
             call.update(fn="derivative", axis=op_axes[0], to=to[op_axes[0]], boundary=draw(st.sampled_from(RULES)))
         elif kind in ("integrate", "average"):
             call["fn"] = kind
+            if len(op_axes) == 1 and draw(st.booleans()):
+                call["axis"] = op_axes[0]  # `axis : str, list of str`
         else:
             call = {"fn": "get_metric", "da": aname, "axes": op_axes, "axis_spelling": draw(st.sampled_from(["list", "tuple"]))}
+            if len(op_axes) == 1 and draw(st.booleans()):
+                call["axes"] = op_axes[0]
         calls.append(call)
     for a in arrays.values():
         a.pop("_pos")
